@@ -123,6 +123,9 @@ func pmonitor(sc pscenario, st *Store, t0 time.Time, apiWrites map[int]bool) (st
 				if a.StateChangeLocked {
 					return "changed-while-locked", fmt.Sprintf("at +%v %s changed partition %d from %s to %s although its state was locked", at, w.Writer, id, a.State, b.State)
 				}
+				if _, isLC := own[w.Writer]; isLC && !apiWrites[wi] && !(a.State == ring.PartitionPending && b.State == ring.PartitionActive) {
+					return "unrequested-change", fmt.Sprintf("at +%v lifecycler %s changed partition %d from %s to %s on its own (the only automatic change is the promotion of a pending partition)", at, w.Writer, id, a.State, b.State)
+				}
 				if _, isLC := own[w.Writer]; isLC && a.State == ring.PartitionPending && b.State == ring.PartitionActive && !apiWrites[wi] {
 					_, old := ownersOf(in, id)
 					if old < own[w.Writer].waitOwners {
@@ -306,6 +309,8 @@ func scenariosC15() []pscenario {
 		{name: "promotion-two-owners", lcs: []plcSpec{{id: "i1", partition: 1, waitOwners: 2}, {id: "i2", partition: 1, waitOwners: 2}}, horizon: 24 * time.Second},
 		{name: "promotion-vs-lock", lcs: []plcSpec{{id: "i1", partition: 1, waitOwners: 1}}, actions: []paction{{at: 3 * time.Second, kind: "lock", part: 1}, {at: 17 * time.Second, kind: "unlock", part: 1},
 			{at: 12 * time.Second, kind: "state", part: 1, to: ring.PartitionInactive, want: ring.ErrPartitionStateChangeLocked}}, horizon: 26 * time.Second},
+		// an operator deactivates the pending partition at the moment its lifecycler is about to promote it
+		{name: "promotion-vs-deactivation", lcs: []plcSpec{{id: "i1", partition: 1, waitOwners: 1}}, actions: []paction{{at: 15 * time.Second, kind: "state", part: 1, to: ring.PartitionInactive}}, horizon: 24 * time.Second},
 		{name: "editor-edges", seed: activeP1, lcs: []plcSpec{{id: "i1", partition: 1, waitOwners: 1}}, actions: []paction{
 			{at: 1 * time.Second, kind: "state", part: 1, to: ring.PartitionPending, want: ring.ErrPartitionStateChangeNotAllowed},
 			{at: 2 * time.Second, kind: "state", part: 1, to: ring.PartitionInactive},
